@@ -338,4 +338,27 @@ example :
        4608, 4864, 5120] ∧
     ((run .repaired World.init ops).1.ex.map (·.failed)) = some false := by decide
 
+/-! ## other time types -/
+
+/-- **The theorems above are about the same definitions the driver runs on floats.**  `gstep`/`grun` are the
+model's definitions written over an arbitrary time type (`Tick τ`: `+`, `≤`, `0 <`, `abs`); instantiated at
+`Int` they are, call by call, the model of this file — state and outputs — for every history.  The driver
+instantiates the very same `grun` at `Float` (IEEE binary64, CPython's `float`) for schedules off the dyadic
+grid (e.g. `Exchangent.RedoTimeout = 0.1`), where the check demands bit-for-bit equal behaviour. -/
+theorem C38_generic_definitions_at_int_are_the_model (v : Variant) (ops : List (GOp Int)) (w : GWorld Int) :
+    toWorld (grun defsInt v w ops).1 = (run v (toWorld w) (ops.map toOp)).1 ∧
+    (grun defsInt v w ops).2 = (run v (toWorld w) (ops.map toOp)).2.map (·.out) :=
+  grun_int v ops w
+
+/-- the unit of time is arbitrary: nothing in the schedule theorems refers to a grid — `Int` ticks of
+1/q s represent every rational schedule with denominators dividing `q` exactly (the operations are only
+`+`, `≤`, `0 <`, `abs`, all invariant under scaling), so `C38_redo_once_per_interval`, `C38_redo_spacing`,
+`C38_redo_count_bound`, `C38_fails_iff_timeout_first` hold for all rational time values.  Example: thirds of
+a second (q = 3): timeout 7/3 s, redo 1/3 s, polled every 1/3 s. -/
+example :
+    redoStamps (run .repaired World.init ([.create .exchanger (some 7) (some 1) none none, .start (some 1)] ++
+      poll 8)).2 = [1, 2, 3, 4, 5, 6] ∧
+    ((run .repaired World.init ([.create .exchanger (some 7) (some 1) none none, .start (some 1)] ++
+      poll 8)).1.ex.map (·.failed)) = some true := by decide
+
 end Ioflo.Exchange
